@@ -24,6 +24,7 @@ class Addr:
         self.map = map
 
         self.ip = None
+        self.addr_key = None
         self.name = None
         self.expiry = None
         self.expires = None
@@ -57,10 +58,15 @@ class Addr:
             self._expire()
             return
 
-        if self.ip is not None and newip != self.ip:
+        if self.ip is None:
+            # AddrMap.update() has stored us under the address exactly
+            # as Tor spelled it, which is not always how self.ip prints
+            self.addr_key = ip
+        elif newip != self.ip:
             # the map is keyed by address as well; follow the change
             self._forget_address()
             self.map.addr[ip] = self
+            self.addr_key = ip
         self.ip = newip
 
         fmt = "%Y-%m-%d %H:%M:%S"
@@ -118,7 +124,7 @@ class Addr:
         drop the by-address key of this mapping, unless another name
         has been mapped to the same address in the meantime
         """
-        key = str(self.ip)
+        key = self.addr_key
         if self.map.addr.get(key, None) is self:
             del self.map.addr[key]
 
